@@ -475,7 +475,7 @@ def run(ctx):
     if ctx.replay:
         cases = [json.load(open(ctx.replay))['case']]
     else:
-        n = ctx.scale(300, 5000)
+        n = ctx.scale(260, 5000)
         # every library entry at least once, then random
         for k in keys:
             c = None
@@ -493,6 +493,11 @@ def run(ctx):
     tb = Tables()
     terms, meta = [], []
     for c in cases:
+        try:
+            get_amp(c)
+        except KeyError:
+            ctx.count('skipped_library_missing')     # its library was rejected: reported above as library_load
+            continue
         rec = drive(c)
         numeric = not isinstance(rec['out'], str)
         ninb = len(rec['out']['f']) if numeric else 0
